@@ -71,6 +71,8 @@ def gen(rng, n):
         spec = junction_spec(rng) if targeted else gen_spec(rng, small=True if j % 5 == 4 else None, binding=(j % 5 == 1))   # every fifth: small costs / small load points
         n_inc = rng.choice([6, 8])
         case = {"kind": "lp-run", "spec": spec, "n_inc": n_inc, "dt": str(rng.choice([F(1), F(1, 2)]))}
+        if j % 8 == 6:
+            case["dt"] = str(rng.choice([F(1, 3600), F(1, 3600), F(1, 1800)]))       # steps of seconds / a minute: the energy at stake per increment is tiny, the power is not
         ps = net.build(dict(spec, exact=False))
         if j % 5 == 3:
             # targeted: a load point at the end of a lateral with a small production unit of its own; a fault on its line leaves
